@@ -51,6 +51,39 @@ class Win:
         return out
 
 
+def growth_lines(t, depth=0):
+    """t as the maximum of lines a*end + b over the current buffer length `end` (a, b >= 0 integers): [(a, b)], or None
+    when t has another shape (then nothing is known about growth)."""
+    t = T.peel(t)
+    if depth > 8 or not isinstance(t, tuple):
+        return None
+    c = T.const_int(t)
+    if c is not None:
+        return [(0, c)] if c >= 0 else None
+    if T.is_call(t, r"Vec::<T, A>::len$") and T.is_field(T.peel(t[2][0]), "bytes"):
+        return [(1, 0)]
+    if T.is_call(t, r"(cmp::max|Ord::max|Ord>::max)$") and len(t[2]) == 2:
+        a, b = growth_lines(t[2][0], depth + 1), growth_lines(t[2][1], depth + 1)
+        # max(x, unknown) >= x: an unknown operand can only add growth
+        if a is None and b is None:
+            return None
+        return (a or []) + (b or [])
+    if t[0] == "bin" and t[1] in ("Mul", "Add") and len(t) > 3:
+        x, y = growth_lines(t[2], depth + 1), growth_lines(t[3], depth + 1)
+        if x is None or y is None:
+            return None
+        if t[1] == "Add":
+            return [(a1 + a2, b1 + b2) for a1, b1 in x for a2, b2 in y]
+        # product: only (line) * (constant)
+        if all(a == 0 for a, b in y) and len(y) == 1:
+            k = y[0][1]
+            return [(a * k, b * k) for a, b in x]
+        if all(a == 0 for a, b in x) and len(x) == 1:
+            k = x[0][1]
+            return [(a * k, b * k) for a, b in y]
+    return None
+
+
 def aff_of(t):
     """Affine form where len(self.bytes), self.start, self.remaining are atoms."""
     def atomize(x):
@@ -168,6 +201,13 @@ def run(ctx):
                         st.L = st.L.add(hi, -1)
                         st.P = st.P.add(hi, -1)
                 elif re.search(r"Vec::<T, A>::resize$", name) and T.is_field(T.peel(p.arg(pos, 0)), "bytes"):
+                    # (d0) the buffer really grows: the new length exceeds the old one for every old length, so the
+                    # transport is always offered at least one byte of room (a zero-length read reads as end of stream)
+                    ls = growth_lines(p.arg(pos, 1))
+                    grows = ls is not None and (any(a >= 1 and b >= 1 for a, b in ls) or (any(a >= 2 for a, b in ls) and any(b >= 1 for a, b in ls)))
+                    nchecks += 1
+                    ctx.ob("C01.window-invariant", grows, "(d0) the read buffer is resized to %s, which is not larger than the buffered length for every length: the transport may be handed an empty buffer and the reader would take the resulting 0 as end of stream" % term_str(p.arg(pos, 1))[:80],
+                           fn=fr.path, construct="buffer-grows", where=fr.where(blk), key_extra={"tag": tag})
                     end_sym = st.L
                     st.L = Aff(0, {("sym", "cap"): 1})
                 elif blk == read_bb:
